@@ -34,8 +34,10 @@ Classify(file, userid, password) ==
                   ELSE IF u = Str(userid) /\ p = Str(password) THEN "user" ELSE "other"]
 
 NoP == {env.nopersist[i] : i \in 1..Len(env.nopersist)}
+\* the URL the profile advertises when the call is made (a server may move its service: e.adv; env.adv otherwise)
+AdvOf(e) == IF "adv" \in DOMAIN e THEN e.adv ELSE env.adv
 JudgeCall(e) ==
-  LET exp == Posts(st, e.client, e.kind, e.mode, env.adv, env.sets, NoP)
+  LET exp == Posts(st, e.client, e.kind, e.mode, AdvOf(e), env.sets, NoP)
       n0 == Len(st.sent)
       want == SubSeq(exp.sent, n0 + 1, Len(exp.sent)) IN
   << <<"number-of-posts expected " \o ToString(Len(want)) \o " got " \o ToString(Len(e.posts)), Len(e.posts) = Len(want)>> >> \o
@@ -74,7 +76,7 @@ Next == /\ l <= Len(Log)
            ELSE IF e.op = "tcall"
            THEN Report(e.id, JudgeTenant(e)) /\ UNCHANGED <<st, env>>
            ELSE /\ Report(e.id, JudgeCall(e))
-                /\ st' = Posts(st, e.client, e.kind, e.mode, env.adv, env.sets, NoP) /\ UNCHANGED env
+                /\ st' = Posts(st, e.client, e.kind, e.mode, AdvOf(e), env.sets, NoP) /\ UNCHANGED env
         /\ l' = l + 1
 Spec == Init /\ [][Next]_vars
 =============================================================================
